@@ -66,7 +66,10 @@ Theorem known_nodup : chk_C01_nodup e (c_trace c) = true.
 Proof.
   unfold chk_C01_nodup. pose proof (tl_disj _ _ _ (k_til e L c known_inv)) as H.
   unfold hist in H. rewrite pairwise_disj_app in H.
-  apply andb_true_iff in H. destruct H as [H _]. apply andb_true_iff in H. destruct H as [H _]. exact H.
+  apply andb_true_iff in H. destruct H as [H _]. apply andb_true_iff in H. destruct H as [H _]. rewrite H. cbn [andb].
+  pose proof (tl_within _ _ _ (k_til e L c known_inv)) as Hw. unfold hist in Hw.
+  rewrite iv_within_app in Hw. apply andb_true_iff in Hw. destruct Hw as [Hw _].
+  apply iv_within_mono with (frontier e (c_sh c)); [unfold frontier; lia|exact Hw].
 Qed.
 
 (** at a quiescent point nothing is held by a running loop *)
